@@ -30,10 +30,12 @@ SHAPES = {
         {'name': 'signal', 'data': ['s0', 's1'], 'modifiers': [ns('normfactor', 'mu')]},
         {'name': 'bkg', 'data': ['b0', 'b1'], 'modifiers': [ns('normsys', 'sysA', {'lo': 'nlo', 'hi': 'nhi'}),
                                                           ns('histosys', 'sysB', {'lo_data': ['hl0', 'hl1'], 'hi_data': ['hh0', 'hh1']})]}]}]},
-    # bin-wise uncertainties: uncorrelated shape on one sample, MC-statistical shared by two samples, luminosity on one of them
+    # bin-wise uncertainties: uncorrelated shape on one sample, MC-statistical shared by two samples, luminosity on one of them, and a
+    # unit-width systematic that precedes the width-carrying constraints in the auxiliary-data order
     'shapeB': {'channels': [{'name': 'SR', 'samples': [
         {'name': 'signal', 'data': ['s0', 's1'], 'modifiers': [ns('normfactor', 'mu'), ns('staterror', 'stat_SR', ['es0', 'es1']), ns('lumi', 'lumi')]},
-        {'name': 'bkg', 'data': ['b0', 'b1'], 'modifiers': [ns('shapesys', 'uncorr', ['u0', 'u1']), ns('staterror', 'stat_SR', ['eb0', 'eb1'])]}]}],
+        {'name': 'bkg', 'data': ['b0', 'b1'], 'modifiers': [ns('shapesys', 'uncorr', ['u0', 'u1']), ns('staterror', 'stat_SR', ['eb0', 'eb1']),
+                                                          ns('histosys', 'sysH', {'lo_data': ['hl0', 'hl1'], 'hi_data': ['hh0', 'hh1']})]}]}],
         'parameters': [{'name': 'lumi', 'auxdata': [1.0], 'sigmas': [0.02], 'bounds': [[0.5, 1.5]], 'inits': [1.0]}]},
     # two channels with different sample sets, one systematic shared across channels and samples, a free shape factor
     'shapeC': {'channels': [
@@ -103,6 +105,35 @@ def formula(spec, channels, par_index):
     return out
 
 
+def constraint_terms(spec, info, par_index):
+    """one term per constrained parameter component, in config.auxdata_order, with widths / factors written from the specification"""
+    mods = {}      # name -> list of (type, channel, sample, modifier)
+    for c in spec['channels']:
+        for smp in sorted(c['samples'], key=lambda x: x['name']):
+            for m in smp['modifiers']: mods.setdefault(m['name'], []).append((m['type'], c, smp, m))
+    terms = []; k = 0
+    for n in info['auxorder']:
+        ptype, npar = info['ptype'][n]
+        t0, c0, smp0, m0 = mods[n][0]
+        for i in range(npar):
+            a = f'a{k}'; k += 1
+            th = par_index(n, i)
+            if t0 in ('normsys', 'histosys'): terms.append(f'lnorm {a} {th} (1.0 : K)')
+            elif t0 == 'lumi':
+                sg = next(p for p in spec['parameters'] if p['name'] == n)['sigmas'][i]
+                terms.append(f'lnorm {a} {th} ({sg!r} : K)')
+            elif t0 == 'shapesys':
+                terms.append(f'lpois {a} ({th} * ((P.pow {smp0["data"][i]} (2.0 : K)) / (P.pow {m0["data"][i]} (2.0 : K))))')
+            elif t0 == 'staterror':
+                decl = [(smp, m) for (t, c, smp, m) in mods[n]]
+                tot = '(' + ' + '.join(smp['data'][i] for smp, m in decl) + ')'
+                ssum = '(' + ' + '.join(f'(P.pow ({m["data"][i]} / {tot}) (2.0 : K))' for smp, m in decl) + ')'
+                sg = f'(P.sqrt {ssum})'      # positive data: the width does not vanish (a vanishing width would be replaced by 1 and the parameter fixed)
+                terms.append(f'lnorm {a} {th} {sg}')
+            else: raise ValueError(t0)
+    return terms
+
+
 HEADER = '''import PyhfModel.Basic
 import PyhfModel.Interp
 /-!
@@ -123,12 +154,24 @@ def generate():
     logging.getLogger('pyhf').setLevel(logging.CRITICAL)
     mgr = sys.modules['pyhf.tensor.manager']
     sb = sx.make_backend(pyhf)
+    lift = lambda a: np.vectorize(sx.lit, otypes=[object])(np.asarray(a, dtype=object))
+
+    def el(f, *arrs):
+        arrs = np.broadcast_arrays(*[lift(a) for a in arrs])
+        res = np.empty(arrs[0].shape, dtype=object)
+        for idx in np.ndindex(arrs[0].shape): res[idx] = f(*[a[idx] for a in arrs])
+        return res
+    # the two log-density primitives stay uninterpreted (their exactness is C04)
+    sb.poisson_logpdf = lambda n, lam: el(lambda a, b: Sym.app('lpois', a, b), n, lam)
+    sb.normal_logpdf = lambda x, mu, sigma: el(lambda a, b, c: Sym.app('lnorm', a, b, c), x, mu, sigma)
+    nbmod = sys.modules['pyhf.tensor.numpy_backend']; orig_cls = nbmod.numpy_backend
     sd, sc = mgr.this.state['default'], mgr.this.state['current']
     out = [HEADER]
     src = hashlib.sha256((inspect.getsource(sys.modules['pyhf.pdf']) + ''.join(inspect.getsource(sys.modules[f'pyhf.modifiers.{m}']) for m in
                           ('histosys', 'lumi', 'normfactor', 'normsys', 'shapefactor', 'shapesys', 'staterror'))).encode()).hexdigest()[:16]
     try:
         mgr.this.state['default'] = (sb, sd[1]); mgr.this.state['current'] = (sb, sc[1])
+        nbmod.numpy_backend = lambda *a, **k: sb       # the basic distribution classes instantiate the backend class themselves
         for shape, spec in SHAPES.items():
             syms = symbols(spec)
             info = {}
@@ -156,7 +199,27 @@ def generate():
             for b in range(nb):
                 out.append(f'def {shape}_bin{b} {sig} : K :=\n{sx.lean_tree(project(tree, b))}\n')
                 out.append(f'def {shape}_ref{b} {sig} : K :=\n  {refs[b]}\n')
+            # ---- the log-likelihood: Model.logpdf(pars, data) with symbolic main and auxiliary data
+            def run_lp():
+                m = pyhf.Model(symbolic(spec), poi_name='mu', validate=False)
+                info['naux'] = m.config.nauxdata; info['auxorder'] = list(m.config.auxdata_order)
+                info['ptype'] = {n: (m.config.param_set(n).pdf_type, m.config.param_set(n).n_parameters) for n in m.config.auxdata_order}
+                pars = np.asarray([var(lean_par(n)) for n in m.config.par_names], dtype=object)
+                data = np.asarray([var(f'd{i}') for i in range(m.config.nmaindata)] + [var(f'a{i}') for i in range(m.config.nauxdata)], dtype=object)
+                return [sx.lit(x) for x in np.ravel(m.logpdf(pars, data))]
+            ltree = sx.paths(run_lp, positive=syms)
+            dvars = [f'd{i}' for i in range(nb)] + [f'a{i}' for i in range(info['naux'])]
+            lsig = ('(P : Prim K) (lpois : K → K → K) (lnorm : K → K → K → K) (' + ' '.join(syms) + ' : K) (' + ' '.join(parvars) + ' : K) ('
+                    + ' '.join(dvars) + ' : K)')
+            out.append(f'/-- `Model.logpdf(pars, data)` of {shape}: main data d, auxiliary data a; `lpois`, `lnorm` = the two log-density primitives -/')
+            out.append(f'def {shape}_logpdf {lsig} : K :=\n{sx.lean_tree(project(ltree, 0))}\n')
+            rate_args = 'P ' + ' '.join(syms) + ' ' + ' '.join(parvars)
+            main_terms = [f'lpois d{b} ({shape}_bin{b} {rate_args})' for b in range(nb)]
+            cons = constraint_terms(spec, info, par_index)
+            out.append(f'/-- the template: one Poisson term per bin on the rates above, one constraint term per constrained parameter component in `auxdata_order` -/')
+            out.append(f'def {shape}_logpdf_ref {lsig} : K :=\n  (' + ' + '.join(main_terms) + ')' + (' + (' + ' + '.join(cons) + ')' if cons else '') + '\n')
     finally:
+        nbmod.numpy_backend = orig_cls
         mgr.this.state['default'] = sd; mgr.this.state['current'] = sc
     out.append('end\nend Pyhf.Gen\n')
     return '\n'.join(out)
